@@ -538,7 +538,7 @@ class Rule(MethodWIGM):
             if E.round == 2:
                 defeatCandidates = [c for c in C.hopeful() if c.isUndeclared]
                 undeclaredVotes = sum((b.vote for b in E.ballots if b.topCand.isUndeclared), V0)
-            defeatCandidates += findCertainLosers(E.surplus + undeclaredVotes)
+            defeatCandidates += [c for c in findCertainLosers(E.surplus + undeclaredVotes) if c not in defeatCandidates]
             if defeatCandidates:
                 do(c.defeat('Defeat %s' % ("undeclared write-in" if c.isUndeclared else "certain loser"))
                    for c in defeatCandidates)
